@@ -110,6 +110,8 @@ def run(chk):
             cache["r"] = prefix_oracle(chk, True)[1]
         return cache["r"]
 
+    chk.default_found = found
+
     try:
         check(chk, ex, found)
     except X.Unsupported as e:
